@@ -259,7 +259,21 @@ def run(ck, w):
     else:
         src = flow.origins_x(lib, sn, assigns[0][1]["rv"]["ops"][0], through_calls=[r"Option::<T>::map$", r"<impl \[T\]>::last$"])
         via = {x[1] for x in src if x[0] == "via"}
-        if flow.origin_calls(src) & {"index::IndexHunkIter::next", "index::IndexHunkIter::try_next"} and any(v.endswith("::last") for v in via):
+        # ... of the hunk AS READ: nothing may drop or reorder its entries before `last()` is taken
+        lasts = [e for e in sn.events if e.bb in sn.live and e.name.endswith("<impl [T]>::last")]
+        mutators = [e for e in sn.events if e.bb in sn.live and re.search(
+            r"Vec::<T, A>::(retain|retain_mut|truncate|pop|drain|remove|swap_remove|dedup\w*|clear|split_off|extract_if)$|<impl \[T\]>::(sort\w*|reverse|rotate_\w+)$", e.name)]
+        shrunk = []
+        for l_ in lasts:
+            recv = {x for x in flow.origins_x(lib, sn, l_.args[0]) if x[0] == "call" and x[1].split("::")[-1] in ("next", "try_next")}
+            for m_ in mutators:
+                mrecv = {x for x in flow.origins_x(lib, sn, m_.args[0]) if x[0] == "call" and x[1].split("::")[-1] in ("next", "try_next")}
+                if recv & mrecv and (sn.reaches(m_.bb, l_.bb) or m_.bb == l_.bb):
+                    shrunk.append(m_)
+        if shrunk:
+            ck.fail(o, sn.name, "hunk modified before its last entry is recorded",
+                    "%s is applied to the hunk before last_apath is taken from it: the resume point is no longer the last path the band recorded" % shrunk[0].name.split("::")[-1], shrunk[0].site())
+        elif flow.origin_calls(src) & {"index::IndexHunkIter::next", "index::IndexHunkIter::try_next"} and any(v.endswith("::last") for v in via):
             # the install of buffered_entries must come after
             ck.ok(o, sites=["%s:%d" % (sn.file, assigns[0][1]["line"])])
         else:
@@ -281,6 +295,7 @@ def run(ck, w):
             ck.fail(o, aa.name, "after not set from the argument", "advance_to_after provenance changed")
 
     _resume_skip(ck, w)
+    _hunk_level_cases(ck, w)
 
     # ---- 6. entries are returned unmodified -----------------------------------------------------------------------
     o = ck.ob("C08.6", "Stitch::next returns the buffered entry itself")
@@ -381,3 +396,72 @@ def _resume_skip(ck, w):
                 "Ok arm adds %d, Err arm adds %d to the found position" % (ok_add, err_add), e.site())
     else:
         ck.ok(o, "Ok(i) -> i+%d, Err(i) -> i+%d" % (ok_add, err_add), sites=[e.site()])
+
+
+_FLIP = {"le": "ge", "lt": "gt", "ge": "le", "gt": "lt"}
+_NEG = {"le": "gt", "lt": "ge", "ge": "lt", "gt": "le"}
+
+
+def _hunk_level_cases(ck, w):
+    """C08.8: the two shortcuts of IndexHunkIter::try_next that decide about a WHOLE hunk from one of
+    its ends. Skipping the hunk is sound only if its LAST entry is <= (or <) the resume path; returning
+    it unsliced is sound only if its FIRST entry is strictly greater. Any other end / relation either
+    loses the straddling hunk's tail or lists the resume path twice."""
+    lib = w.lib
+    b = w.body("index::IndexHunkIter::try_next") if "index::IndexHunkIter::try_next" in lib.bodies else w.body("index::IndexHunkIter::next")
+    o = ck.ob("C08.8", "IndexHunkIter: a whole hunk is skipped only if its last entry is <= the resume path, and returned unsliced only "
+                       "if its first entry is > the resume path")
+    nxt = [e for e in b.events if e.bb in b.live and e.callee == "std::iter::Iterator::next"]
+    slicers = [e for e in b.events if e.bb in b.live and re.search(
+        r"binary_search|partition_point|ops::Index<.*::index$|<impl \[T\]>::(split_at|split_off|get)$|Vec::<T, A>::(split_off|drain|truncate)$", e.name)]
+    oks = [bb for bb, j, st in rules.agg_sites(b, "std::result::Result", "Ok")]
+    if not nxt or not oks:
+        ck.fail(o, b.name, "anchor-missing", "no hunk-number iteration or no Ok(entries) return in %s" % b.name)
+        return
+    cmps = [e for e in b.events if e.bb in b.live and re.search(r"^std::cmp::PartialOrd::(le|lt|ge|gt)$", e.callee or "") and len(e.args) == 2]
+    n = 0
+    bad = []
+    for e in cmps:
+        kinds = []
+        for a in e.args:
+            oo = flow.origins_x(lib, b, a)
+            calls = flow.origin_calls(oo)
+            if any(x[0] in ("param", "upvar") and "after" in x[2] for x in oo):
+                kinds.append("after")
+            elif any(c.endswith("<impl [T]>::last") for c in calls):
+                kinds.append("last")
+            elif any(c.endswith("<impl [T]>::first") for c in calls):
+                kinds.append("first")
+            else:
+                kinds.append("?")
+        if "after" not in kinds or not ({"first", "last"} & set(kinds)):
+            continue
+        op = e.callee.rsplit("::", 1)[-1]
+        if kinds[0] == "after":
+            op = _FLIP[op]
+        end = kinds[1] if kinds[0] == "after" else kinds[0]
+        for pol in (True, False):
+            cond = op if pol else _NEG[op]
+            for (u, v) in rules.bool_switch_edges(b, e, pol):
+                region = b.reachable(v)
+                reach_ok = [r for r in oks if r in region]
+                skip = bool(reach_ok) and all(b.must_pass_nodes({x.bb for x in nxt}, r, start=v) for r in reach_ok) or \
+                    (not reach_ok and any(x.bb in region for x in nxt))
+                direct = b.reachable(v, removed_nodes={x.bb for x in nxt} | {x.bb for x in slicers} | {x.bb for x in cmps if x is not e})
+                whole = any(r in direct for r in oks)
+                if skip:
+                    n += 1
+                    if not (end == "last" and cond in ("le", "lt")):
+                        bad.append((e, "the hunk is skipped when its %s entry is %s the resume path" % (end, cond)))
+                elif whole:
+                    n += 1
+                    if not (end == "first" and cond == "gt"):
+                        bad.append((e, "the hunk is returned unsliced when its %s entry is %s the resume path" % (end, cond)))
+    if bad:
+        for e, m in bad:
+            ck.fail(o, b.name, m, m + " (sound: skip iff last <= after; whole iff first > after)", e.site())
+    elif n == 0:
+        ck.ok(o, "no whole-hunk shortcut present (every hunk goes through the position search)")
+    else:
+        ck.ok(o, "%d whole-hunk decision(s), all from the sound end and relation" % n, instances=n,
+              sites=[e.site() for e in cmps])
